@@ -285,6 +285,10 @@ def gen_script(r):
 
 
 CORPUS = [
+    # D70: a flag is added and removed again while the idler is stuck writing the notification of an earlier change to the same message
+    [['mut', 1, 'append', [2]], ['mut', 0, 'store', 4, 1, [0, 4]], ['mut', 1, 'store', 3, 1, [4]], ['mut', 0, 'expunge', 1], ['release'], ['mut', 1, 'store', 1, 0, [1, 4]],
+     ['mut', 1, 'store', 4, 1, [1, 2]], ['mut', 0, 'store', 5, 2, [1, 4]], ['release']],
+    [['mut', 0, 'store', 0, 1, [1]], ['mut', 1, 'store', 0, 1, [4]], ['release'], ['mut', 1, 'store', 0, 2, [4]], ['release']],
     # a refused non-UID STORE (read-only selection) right before IDLE, then an EXPUNGE by someone else (seeded C16-b)
     [['pre', True, [['store', 0, False, '1', 1, [1], False]]], ['mut', 0, 'expunge', 0]],
     [['pre', True, [['store', 0, False, '2', 1, [1], True]]], ['mut', 0, 'store', 1, 1, [1]]],
